@@ -258,10 +258,7 @@ def run(repo, rep, tier):
         rep.floor('predicates', 'database names of shape %s' % tag, nhit, 1)
 
     # ---- rule 4: suppression flow --------------------------------------------------------------------------------------------
-    augs = [n for n in walk_no_nested(ppf) if isinstance(n, ast.AugAssign) and unparse(n.target) == 'algorithm_recommendation_suppress_list' and isinstance(n.op, ast.Add)]
-    srcs = sorted(call_name(a.value) for a in augs if isinstance(a.value, ast.Call))
-    rep.check('suppress', 'the three not-enabled lists are added to the suppression list, unconditionally', srcs == ['_get_cbc_ciphers_not_enabled', '_get_chacha_ciphers_not_enabled', '_get_etm_macs_not_enabled'] and all(a in ppf.body for a in augs), augs[0] if augs else ppf,
-              'suppression list receives %s' % srcs)
+    # (that the three not-enabled lists reach the returned suppression list on every row is decided by the decision table above)
     rets = [r for r in walk_no_nested(ppf) if isinstance(r, ast.Return)]
     ok = len(rets) == 1 and isinstance(rets[0].value, ast.Tuple) and unparse(rets[0].value.elts[0]) == 'algorithm_recommendation_suppress_list' and unparse(rets[0].value.elts[1]) == 'additional_notes'
     rep.check('suppress', 'post_process_findings returns (suppression list, notes)', ok, rets[0] if rets else ppf, 'return value changed')
